@@ -372,3 +372,164 @@ PARTS["rcodec"] = dict(
 )
 PROPS["C05"] = dict(parts=[dict(name="pcodec")])
 PROPS["C06"] = dict(parts=[dict(name="rcodec")])
+# ---------------------------------------------------------------------------------------------- C18 (packet filter)
+def _lim_required(events):
+    """Vacuity guard, limiter level: refusals, an on-time request after a refusal, a prune that removes a key."""
+    seen, refused, prev_st = set(), set(), []
+    for e in events:
+        o = e["op"]["o"]
+        if o == "reset":
+            refused, prev_st = set(), []
+            continue
+        if o == "allows":
+            seen.add(e["ret"][0])
+            if e["ret"][0] == "TooSoon":
+                refused.add(e["op"]["k"])
+            elif e["ret"][0] == "Ok" and e["op"]["k"] in refused:
+                seen.add("Ok-after-TooSoon")
+        if o == "prune":
+            seen.add("prune-removes" if len(e["st"]) < len(prev_st) else "prune-keeps" if e["st"] else "prune")
+        prev_st = e["st"]
+    return [n for n in ["Ok", "TooSoon", "TooLarge", "Ok-after-TooSoon", "prune-removes", "prune-keeps"] if n not in seen]
+
+
+def _flt_flags(e):
+    op, pre = e["op"], e["pre"]
+    return dict(pIp=op["ip"] in pre["pi"], bIp=any(b[0] == op["ip"] for b in pre["bi"]),
+                pNode=op["node"] in pre["pn"], bNode=any(b[0] == op["node"] for b in pre["bn"]),
+                ipBanned=any(b[0] == op["ip"] for b in e["post"]["bi"]), nodeBanned=any(b[0] == op["node"] for b in e["post"]["bn"]))
+
+
+def _flt_interesting(e):
+    if e["op"]["o"] != "pkt":
+        return e["op"]["o"] not in ("tick", "reset")
+    return "drop" in e["ret"] or any(_flt_flags(e)[k] for k in ("pIp", "bIp", "pNode", "bNode"))
+
+
+def _flt_required(events):
+    """Vacuity guard, filter level: every kind of verdict the property speaks about must have been observed."""
+    seen, prev = set(), None
+    for e in events:
+        o = e["op"]["o"]
+        if o == "pkt":
+            fl = _flt_flags(e)
+            s1, s2 = e["ret"]
+            if s1 == "drop" and not fl["bIp"]:
+                seen.add("ip-excess-ban" if fl["ipBanned"] else "total-refusal")
+            if s1 == "drop" and fl["bIp"] and not fl["pIp"]:
+                seen.add("banned-ip-drop")
+            if s1 == "pass" and fl["bIp"] and fl["pIp"]:
+                seen.add("permit-over-ban-ip")
+            if s2 == "drop" and not fl["bNode"]:
+                seen.add("node-excess-ban" if fl["nodeBanned"] else "node-refusal-noban")
+            if s2 == "drop" and fl["bNode"] and not fl["pNode"]:
+                seen.add("banned-node-drop")
+            if s2 == "pass" and fl["bNode"] and fl["pNode"]:
+                seen.add("permit-over-ban-node")
+            if s1 == "pass" and s2 == "pass":
+                seen.add("through")
+        if o == "prune" and prev is not None:
+            n0 = sum(len(prev["st"][k]) for k in ("tot", "ip", "node"))
+            n1 = sum(len(e["st"][k]) for k in ("tot", "ip", "node"))
+            seen.add("prune-removes" if n1 < n0 else "prune-keeps" if n1 else "prune")
+        prev = e
+    need = ["through", "ip-excess-ban", "total-refusal", "banned-ip-drop", "permit-over-ban-ip", "node-excess-ban", "banned-node-drop",
+            "permit-over-ban-node", "prune-removes", "prune-keeps"]
+    return [n for n in need if n not in seen]
+
+
+_C18_FORMULAS = {f: "C18" for f in ("C18.Window", "C18.WindowIp", "C18.WindowTotal", "C18.WindowNode", "C18.RefusedWithinQuota",
+                                    "C18.PruneNeutral", "C18.BanPermit", "C18.ExcessNotBanned", "C18.BanTooShort")}
+_C18_ASSUME = ["quotas whose period is divisible by the burst (t = tau / max_tokens exact; with nanosecond periods the rounding of other quotas is 1e-9 relative and not observable)",
+               "one model tick = 10 s; arrivals, prunes and list operations happen at whole ticks, several per tick"]
+PARTS["limiter"] = dict(
+    component="limiter", spec="MC_Limiter.tla",
+    mc={"quick": ["MC_Limiter.cfg"], "thorough": ["MC_Limiter.cfg", "MC_Limiter_b.cfg", "MC_Limiter_big.cfg"]},
+    goals_cfg="MC_Limiter_goal.cfg", goals=["GoalRefusedThenOk", "GoalPrunedKeyBack", "GoalPruneKeepsDebt", "GoalTooLarge"],
+    sim={"quick": [dict(cfg="MC_Limiter_sim.cfg", num=120, depth=40)], "thorough": [dict(cfg="MC_Limiter_sim.cfg", num=3000, depth=60)]},
+    drive={"quick": 4000, "thorough": 100000},
+    trace="Trace_Limiter.tla", mon_cfg="Trace_Limiter_mon.cfg", strict_cfg="Trace_Limiter_strict.cfg",
+    formulas=_C18_FORMULAS,
+    interesting=lambda e: e["ret"][0] != "Ok" or e["op"]["o"] == "prune",
+    required=_lim_required,
+    assumptions=_C18_ASSUME + ["limiter level: the GCRA Limiter<u64> is called through the LimiterFacade hook with explicit time (exact); Limiter is generic, u64 keys stand for IpAddr / NodeId / ()",
+                               "prune is called with a limit <= the current time (RateLimiter::prune passes the current time)"],
+)
+PARTS["filter"] = dict(
+    component="filter", spec="MC_Filter.tla",
+    mc={"quick": ["MC_Filter.cfg", "MC_Filter_bl.cfg"], "thorough": ["MC_Filter.cfg", "MC_Filter_bl.cfg", "MC_Filter_b.cfg", "MC_Filter_t.cfg"]},
+    goals_cfg="MC_Filter_goal.cfg",
+    goals=["GoalIpBanThenDrop", "GoalTotalRefusal", "GoalPrunedKeyUsed", ("GoalNodeBanThenDrop", "MC_Filter_goalnode.cfg"), ("GoalNodeRefill", "MC_Filter_goalnode.cfg"),
+           ("GoalPermitOverBan", "MC_Filter_goalbl.cfg"), ("GoalUnbanThenRefused", "MC_Filter_goalbl.cfg")],
+    sim={"quick": [dict(cfg="MC_Filter_sim.cfg", num=60, depth=45), dict(cfg="MC_Filter_simq.cfg", num=60, depth=45), dict(cfg="MC_Filter_simt.cfg", num=20, depth=40)],
+         "thorough": [dict(cfg="MC_Filter_sim.cfg", num=1500, depth=60), dict(cfg="MC_Filter_simq.cfg", num=1500, depth=60), dict(cfg="MC_Filter_simt.cfg", num=400, depth=60)]},
+    drive={"quick": 4000, "thorough": 100000},
+    trace="Trace_Filter.tla", mon_cfg="Trace_Filter_mon.cfg", strict_cfg="Trace_Filter_strict.cfg",
+    formulas=_C18_FORMULAS,
+    interesting=_flt_interesting, required=_flt_required,
+    assumptions=_C18_ASSUME + ["filter level: the real Filter (FilterFacade hook) with the crate's RateLimiter built by RateLimiterBuilder; virtual time by the RateLimiter::verif_age hook, the real microseconds a behaviour takes never reach a tick (behaviours slower than half a tick would be re-run)",
+                               "a datagram takes initial_pass and, if it passed and names a node id, final_pass (the order of RecvHandler::handle_inbound; the real handle_inbound is bound by the recv part)",
+                               "the process-global PERMIT_BAN_LIST is driven through the public Discv5::{ban_ip, permit_ip, ban_node, permit_node, *_remove} API and read with the ban_list_snapshot hook; it is reset at every behaviour start and the checks using it are serialised within one harness process",
+                               "max_nodes_per_ip / max_bans_per_ip are off (None) wherever 'within every applicable quota => never refused' is judged; configurations with them on are checked for conformance of the transcription and the remaining formulas",
+                               "the copy of the filter whose limiter is never pruned judges each datagram against the same ban list (restored before the pruned copy judges it)",
+                               "expiry of bans is the handler's business (unban_nodes_check), not the filter's: the filter treats every listed entry as banned; 'banned for at least the configured duration' is judged on the recorded expiry instant"],
+)
+
+
+def _recv_flags(e):
+    op, pre = e["op"], e["pre"]
+    nd = op["node"] if op["kind"] == "msg" else 0
+    return dict(sol=op["ip"] in e["exp"], pIp=op["ip"] in pre["pi"], bIp=any(b[0] == op["ip"] for b in pre["bi"]),
+                pNode=nd in pre["pn"], bNode=any(b[0] == nd for b in pre["bn"]),
+                ipBanned=any(b[0] == op["ip"] for b in e["post"]["bi"]), nodeBanned=any(b[0] == nd for b in e["post"]["bn"]))
+
+
+def _recv_interesting(e):
+    if e["op"]["o"] != "dgram":
+        return e["op"]["o"] not in ("tick", "reset")
+    fl = _recv_flags(e)
+    return e["ret"][0] != "inbound" or e["op"]["kind"] != "msg" or fl["sol"] or fl["pIp"] or fl["pNode"]
+
+
+def _recv_required(events):
+    seen = set()
+    for e in events:
+        if e["op"]["o"] != "dgram":
+            continue
+        fl, out, kind = _recv_flags(e), e["ret"][0], e["op"]["kind"]
+        if fl["sol"]:
+            if out != "drop" and ((fl["bIp"] and not fl["pIp"]) or (fl["bNode"] and not fl["pNode"])):
+                seen.add("solicited-bypasses-ban")
+            continue
+        seen.add(kind + ":" + out)
+        if out == "drop" and not fl["bIp"] and fl["ipBanned"]:
+            seen.add("ip-excess-ban")
+        if out == "drop" and not fl["bNode"] and fl["nodeBanned"]:
+            seen.add("node-excess-ban")
+        if out == "drop" and not fl["bIp"] and not fl["bNode"] and not fl["ipBanned"] and not fl["nodeBanned"]:
+            seen.add("total-refusal")
+        if out == "drop" and fl["bNode"] and not fl["pNode"] and not fl["bIp"]:
+            seen.add("banned-node-drop")
+        if out != "drop" and fl["bIp"] and fl["pIp"]:
+            seen.add("permit-over-ban-ip")
+    need = ["msg:inbound", "msg:drop", "way:inbound", "way:drop", "junk:unrecognized", "junk:drop", "solicited-bypasses-ban", "ip-excess-ban",
+            "node-excess-ban", "total-refusal", "banned-node-drop", "permit-over-ban-ip"]
+    return [n for n in need if n not in seen]
+
+
+PARTS["recv"] = dict(
+    component="recv", spec="MC_Recv.tla",
+    mc={"quick": ["MC_Recv.cfg"], "thorough": ["MC_Recv.cfg", "MC_Recv_b.cfg"]},
+    goals_cfg="MC_Recv_goal.cfg", goals=["GoalSolicitedBypass", "GoalNodeStageOnlyMsg", "GoalSolicitedMsg"],
+    sim={"quick": [dict(cfg="MC_Recv_sim.cfg", num=80, depth=45)], "thorough": [dict(cfg="MC_Recv_sim.cfg", num=2000, depth=60)]},
+    drive={"quick": 3000, "thorough": 80000},
+    trace="Trace_Recv.tla", mon_cfg="Trace_Recv_mon.cfg", strict_cfg="Trace_Recv_strict.cfg",
+    formulas=_C18_FORMULAS,
+    interesting=_recv_interesting, required=_recv_required,
+    assumptions=_C18_ASSUME + ["receive-task level: the real RecvHandler::handle_inbound (expected-response exemption, Filter::initial_pass, Packet::decode, Filter::final_pass, forwarding to the packet handler) "
+                               "is fed with real datagrams (random-data message packets naming a node id, WHOAREYOU packets, undecodable bytes) through the RecvFacade hook; the handler owns a loopback UDP socket that is never read; "
+                               "the receive loop itself (recv_from, the 30 s prune interval) is not executed: prune is called explicitly",
+                               "only what reaches the packet handler is observable at this level (drop / inbound / unrecognized frame), not the stage that dropped a datagram: a drop must be justified by the IP stage (unless the IP is permitted) or by the node stage (a named, not permitted node id)",
+                               "a source a response is expected from (filter_expected_responses) is solicited: nothing is demanded of its datagrams here"],
+)
+PROPS["C18"] = dict(parts=[dict(name="limiter"), dict(name="filter"), dict(name="recv")])
